@@ -3,6 +3,9 @@ macro_rules! registry {
     ($action:ident, $id:expr, $ctx:expr, $path:expr) => {
         match $id {
             "C01" => dispatch!($action, props::c01::C01, $ctx, $path),
+            "C31" => dispatch!($action, props::c31::C31, $ctx, $path),
+            "C32" => dispatch!($action, props::c32::C32, $ctx, $path),
+            "C33" => dispatch!($action, props::c33::C33, $ctx, $path),
             _ => {
                 eprintln!("unknown property {}", $id);
                 2
